@@ -58,6 +58,24 @@ class LocalLink:
     def remove_controller(self, controller: controller.Controller):
         self.controllers.remove(controller)
 
+        # The controllers that had a connection with it lose that connection (what a
+        # supervision timeout tells them, once nothing is heard from the peer)
+        for other in self.controllers:
+            for connection in list(other.le_connections.values()):
+                if any(
+                    gone.peer_address == connection.self_address
+                    and gone.self_address == connection.peer_address
+                    for gone in controller.le_connections.values()
+                ):
+                    other.on_le_disconnected(
+                        connection, hci.HCI_ErrorCode.CONNECTION_TIMEOUT_ERROR
+                    )
+            for peer_address in list(other.classic_connections):
+                if peer_address == controller.public_address:
+                    other.on_classic_disconnected(
+                        peer_address, hci.HCI_ErrorCode.CONNECTION_TIMEOUT_ERROR
+                    )
+
     def find_le_controller(self, address: hci.Address) -> controller.Controller | None:
         for controller in self.controllers:
             for connection in controller.le_connections.values():
